@@ -258,8 +258,8 @@ func useFam(h *keyset.Handle, fam string, uc *useCtx) primRes {
 			for _, sig := range [][]byte{nil, {0}, bytes.Repeat([]byte{1}, 5), bytes.Repeat([]byte{0x30}, 70), bytes.Repeat([]byte{0xff}, 300)} {
 				_ = v.Verify(sig, testMsg)
 			}
-			if uc != nil {
-				if sig := genuineSignature(uc); sig != nil {
+			if uc != nil { // produced = the verifier accepted a genuine signature (made as declared, or as the legal value would have it)
+				for _, sig := range genuineSignatures(uc) {
 					if err := v.Verify(sig, bytes.Clone(testMsg)); err == nil {
 						r.Produced = true
 					} else {
@@ -361,7 +361,7 @@ func useFam(h *keyset.Handle, fam string, uc *useCtx) primRes {
 				_, _ = v.VerifyAndDecode(tok, jwtValidator())
 			}
 			if uc != nil {
-				if tok := genuineToken(uc); tok != "" {
+				for _, tok := range genuineTokens(uc) {
 					if _, err := v.VerifyAndDecode(tok, jwtValidator()); err == nil {
 						r.Produced = true
 					} else {
@@ -483,116 +483,141 @@ func tinkPrefix(pt tinkpb.OutputPrefixType, id uint32) []byte {
 	return nil
 }
 
-func genuineSignature(uc *useCtx) []byte {
+// genuineSignatures: signatures by the base's raw private key over the test message, in Tink's wire format. The raw key
+// is the one the base was generated with: for an edited field (a declared exponent or hash that the key material does
+// not depend on) it stays "what the key would do if the declaration were ignored"; hashes tried: the declared one and
+// the strong ones (what a legal declaration would have said).
+func genuineSignatures(uc *useCtx) [][]byte {
 	msg := bytes.Clone(testMsg)
 	if uc.prefix == tinkpb.OutputPrefixType_LEGACY {
 		msg = append(msg, 0)
 	}
-	var raw []byte
-	switch uc.c.Type {
-	case "EcdsaPublicKey":
-		if uc.b.ec == nil || len(uc.c.Edits) > 0 && editsTouchKey(uc.c.Edits) {
-			return nil
-		}
-		ch, hf := hashByNumber(obsInt(uc.obs, "params.hash_type"))
-		if hf == nil {
-			return nil
-		}
-		_ = ch
-		h := hf()
-		h.Write(msg)
-		r, s, err := ecdsa.Sign(crand.Reader, uc.b.ec, h.Sum(nil))
-		if err != nil {
-			return nil
-		}
-		switch obsInt(uc.obs, "params.encoding") {
-		case 2: // DER
-			raw, _ = asn1.Marshal(struct{ R, S *big.Int }{r, s})
-		case 1: // IEEE P1363
-			n := (uc.b.ec.Curve.Params().BitSize + 7) / 8
-			raw = append(pad(r.Bytes(), n), pad(s.Bytes(), n)...)
-		default:
-			return nil
-		}
-	case "RsaSsaPkcs1PublicKey":
-		if uc.b.rs == nil || editsTouchKey(uc.c.Edits) {
-			return nil
-		}
-		ch, hf := hashByNumber(obsInt(uc.obs, "params.hash_type"))
-		if hf == nil {
-			return nil
-		}
-		h := hf()
-		h.Write(msg)
-		var err error
-		raw, err = rsa.SignPKCS1v15(nil, uc.b.rs, ch, h.Sum(nil))
-		if err != nil {
-			return nil
-		}
-	case "RsaSsaPssPublicKey":
-		if uc.b.rs == nil || editsTouchKey(uc.c.Edits) {
-			return nil
-		}
-		ch, hf := hashByNumber(obsInt(uc.obs, "params.sig_hash"))
-		if hf == nil || obsInt(uc.obs, "params.mgf1_hash") != obsInt(uc.obs, "params.sig_hash") {
-			return nil
-		}
-		h := hf()
-		h.Write(msg)
-		var err error
-		raw, err = rsa.SignPSS(crand.Reader, uc.b.rs, ch, h.Sum(nil), &rsa.PSSOptions{SaltLength: obsInt(uc.obs, "params.salt_length"), Hash: ch})
-		if err != nil {
-			return nil
-		}
-	default:
+	if editsTouchKey(uc.c.Edits) {
 		return nil
 	}
-	return append(tinkPrefix(uc.prefix, uc.id), raw...)
+	hashNums := func(field string) []int {
+		hs := []int{}
+		for _, n := range []int{obsInt(uc.obs, field), 3, 2, 4} { // declared, SHA256, SHA384, SHA512
+			dup := false
+			for _, x := range hs {
+				dup = dup || x == n
+			}
+			if _, hf := hashByNumber(n); hf != nil && !dup {
+				hs = append(hs, n)
+			}
+		}
+		return hs
+	}
+	out := [][]byte{}
+	add := func(raw []byte) { out = append(out, append(tinkPrefix(uc.prefix, uc.id), raw...)) }
+	switch uc.c.Type {
+	case "EcdsaPublicKey":
+		if uc.b.ec == nil {
+			return nil
+		}
+		for _, hn := range hashNums("params.hash_type") {
+			_, hf := hashByNumber(hn)
+			h := hf()
+			h.Write(msg)
+			r, s, err := ecdsa.Sign(crand.Reader, uc.b.ec, h.Sum(nil))
+			if err != nil {
+				continue
+			}
+			n := (uc.b.ec.Curve.Params().BitSize + 7) / 8
+			der, _ := asn1.Marshal(struct{ R, S *big.Int }{r, s})
+			p1363 := append(pad(r.Bytes(), n), pad(s.Bytes(), n)...)
+			switch obsInt(uc.obs, "params.encoding") {
+			case 2:
+				add(der)
+			case 1:
+				add(p1363)
+			default: // undeclared encoding: offer both
+				add(der)
+				add(p1363)
+			}
+		}
+	case "RsaSsaPkcs1PublicKey":
+		if uc.b.rs == nil {
+			return nil
+		}
+		for _, hn := range hashNums("params.hash_type") {
+			ch, hf := hashByNumber(hn)
+			h := hf()
+			h.Write(msg)
+			if raw, err := rsa.SignPKCS1v15(nil, uc.b.rs, ch, h.Sum(nil)); err == nil {
+				add(raw)
+			}
+		}
+	case "RsaSsaPssPublicKey":
+		if uc.b.rs == nil {
+			return nil
+		}
+		for _, hn := range hashNums("params.sig_hash") {
+			ch, hf := hashByNumber(hn)
+			h := hf()
+			h.Write(msg)
+			salt := obsInt(uc.obs, "params.salt_length")
+			if salt < 0 || salt > 256 {
+				continue
+			}
+			if raw, err := rsa.SignPSS(crand.Reader, uc.b.rs, ch, h.Sum(nil), &rsa.PSSOptions{SaltLength: salt, Hash: ch}); err == nil {
+				add(raw)
+			}
+		}
+	}
+	return out
 }
 
 // the genuine signature is only genuine while the key material is the base's
 func editsTouchKey(es []edit) bool {
 	for _, e := range es {
-		switch e.Path {
-		case "x", "y", "n", "e", "@value", "@type_url":
+		switch e.Path { // (not "e": the raw key keeps signing under the exponent it was generated with)
+		case "x", "y", "n", "@value", "@type_url":
 			return true
 		}
 	}
 	return false
 }
 
-func genuineToken(uc *useCtx) string {
+func genuineTokens(uc *useCtx) []string {
 	if uc.b.rs == nil || editsTouchKey(uc.c.Edits) || uc.prefix != tinkpb.OutputPrefixType_RAW {
-		return ""
+		return nil
 	}
-	alg := obsInt(uc.obs, "algorithm")
+	fam := ""
+	switch uc.c.Type {
+	case "JwtRsaSsaPkcs1PublicKey":
+		fam = "RS"
+	case "JwtRsaSsaPssPublicKey":
+		fam = "PS"
+	default:
+		return nil
+	}
 	hs := map[int]crypto.Hash{1: crypto.SHA256, 2: crypto.SHA384, 3: crypto.SHA512}
-	ch, ok := hs[alg]
-	if !ok {
-		return ""
-	}
-	bits := map[int]string{1: "256", 2: "384", 3: "512"}[alg]
-	name := "RS" + bits
-	if uc.c.Type == "JwtRsaSsaPssPublicKey" {
-		name = "PS" + bits
-	} else if uc.c.Type != "JwtRsaSsaPkcs1PublicKey" {
-		return ""
+	bits := map[int]string{1: "256", 2: "384", 3: "512"}
+	algs := []int{obsInt(uc.obs, "algorithm")}
+	if _, ok := hs[algs[0]]; !ok {
+		algs = []int{1, 2, 3}
 	}
 	enc := base64.RawURLEncoding
-	unsigned := enc.EncodeToString([]byte(`{"alg":"`+name+`"}`)) + "." + enc.EncodeToString([]byte(`{"iss":"c14"}`))
-	h := ch.New()
-	h.Write([]byte(unsigned))
-	var sig []byte
-	var err error
-	if name[0] == 'R' {
-		sig, err = rsa.SignPKCS1v15(nil, uc.b.rs, ch, h.Sum(nil))
-	} else {
-		sig, err = rsa.SignPSS(crand.Reader, uc.b.rs, ch, h.Sum(nil), &rsa.PSSOptions{SaltLength: ch.Size(), Hash: ch})
+	out := []string{}
+	for _, alg := range algs {
+		ch := hs[alg]
+		name := fam + bits[alg]
+		unsigned := enc.EncodeToString([]byte(`{"alg":"`+name+`"}`)) + "." + enc.EncodeToString([]byte(`{"iss":"c14"}`))
+		h := ch.New()
+		h.Write([]byte(unsigned))
+		var sig []byte
+		var err error
+		if fam == "RS" {
+			sig, err = rsa.SignPKCS1v15(nil, uc.b.rs, ch, h.Sum(nil))
+		} else {
+			sig, err = rsa.SignPSS(crand.Reader, uc.b.rs, ch, h.Sum(nil), &rsa.PSSOptions{SaltLength: ch.Size(), Hash: ch})
+		}
+		if err == nil {
+			out = append(out, unsigned+"."+enc.EncodeToString(sig))
+		}
 	}
-	if err != nil {
-		return ""
-	}
-	return unsigned + "." + enc.EncodeToString(sig)
+	return out
 }
 
 var _ = proto.Marshal
